@@ -1,8 +1,13 @@
 /-
-  Driver for C08: same protocol as C07 (`AcnModel/WireSorted.lean`); the C08 harness reads the
-  intermediate states (sorted order, per-session bounds, round-robin trace and level lists).
+  Driver for C08: same protocol as C07.  Every sorted-algorithm call goes through the
+  estimator-parametric model: requests marked `"custom_est": true` (an ARBITRARY upper-bound estimator:
+  the dict the implementation's estimator returned is an input of every call) are answered by
+  `Sorted.scheduleCallEst` (`AcnModel/SortedEst.lean`, handler `WireSortedEst.handleCallsEst`); the
+  others by `Sorted.scheduleCall`, which is the instance "dict of the modelled `SimpleRampdown`"
+  of the same function (`Acn.C07.rampdown_is_an_estimator`).  The C08 harness reads the intermediate
+  states (sorted order, per-session bounds, round-robin trace and level lists, `est_in`).
 -/
-import AcnModel.WireSorted
+import AcnModel.WireSortedEst
 open Acn.Wire
 
-def main : IO Unit := runDriver Acn.WireSorted.handle
+def main : IO Unit := runDriver Acn.WireSortedEst.handle
